@@ -222,6 +222,13 @@ def check_inside_one(get, entered, rec, repl, target, viol, via):
         v = yield f.asynq(*a, **k)
         return v
 
+    @A()
+    def ac_yielder(f, a, k):
+        from asynq import async_call
+
+        v = yield async_call.asynq(f, *a, **k)
+        return v
+
     given = ((3,), {"y": 4})
     results = []
     recorded = []
@@ -238,6 +245,8 @@ def check_inside_one(get, entered, rec, repl, target, viol, via):
         ("asyncio.run(.asyncio())", lambda: asyncio.run(get().asyncio(*given[0], **given[1]))),
         # convention 3 inside convention 4: the task that yields .asynq() is itself driven by an event loop
         ("yield .asynq() from a task run by asyncio", lambda: asyncio.run(yielder.asyncio(get(), given[0], given[1]))),
+        # ... and the same through async_call, which awaits the target's .asyncio() inside asyncio mode
+        ("yield async_call.asynq() from a task run by asyncio", lambda: asyncio.run(ac_yielder.asyncio(get(), given[0], given[1]))),
     ]
     for name, fn in convs:
         before = len(calls_so_far())
